@@ -39,3 +39,46 @@ Print Assumptions shipped_index_entries_ok.
 Theorem shipped_index_keys_distinct : nodup_strs (map fst shipped_index) = true.
 Proof. exact shipped_keys_distinct. Qed.
 Print Assumptions shipped_index_keys_distinct.
+
+(* ---- index generation (curate.create_metadata_file): the generated index is exactly the union of what each basis metadata
+   file with its table files determines.  Statements in Proofs/IndexMetaDefs.v ---- *)
+From BSE Require Import Proofs.IndexMetaDefs.
+From BSE Require Proofs.IndexMetaSpec.
+
+(* keys pairwise distinct and strictly sorted *)
+Theorem create_metadata_keys : create_metadata_keys_stmt.
+Proof. exact IndexMetaSpec.create_metadata_keys. Qed.
+Print Assumptions create_metadata_keys.
+
+(* no entry is invented, none is lost, a key determines its metadata file and its entry *)
+Theorem create_metadata_sound : create_metadata_sound_stmt.
+Proof. exact IndexMetaSpec.create_metadata_sound. Qed.
+Print Assumptions create_metadata_sound.
+
+Theorem create_metadata_complete : create_metadata_complete_stmt.
+Proof. exact IndexMetaSpec.create_metadata_complete. Qed.
+Print Assumptions create_metadata_complete.
+
+Theorem create_metadata_key_unique : create_metadata_key_unique_stmt.
+Proof. exact IndexMetaSpec.create_metadata_key_unique. Qed.
+Print Assumptions create_metadata_key_unique.
+
+(* one entry: key = transformed listed name, other_names = the other listed names, relpath/basename = where the metadata file is,
+   versions = exactly the table files <basename>.<version>.table.json beside it (each listed with its own path),
+   latest_version = the numeric maximum of the versions *)
+Theorem one_meta_entry : one_meta_entry_stmt.
+Proof. exact IndexMetaSpec.one_meta_entry. Qed.
+Print Assumptions one_meta_entry.
+
+Theorem one_meta_names : one_meta_names_stmt.
+Proof. exact IndexMetaSpec.one_meta_names. Qed.
+Print Assumptions one_meta_names.
+
+(* aliases share everything but display_name / other_names *)
+Theorem one_meta_aliases : one_meta_aliases_stmt.
+Proof. exact IndexMetaSpec.one_meta_aliases. Qed.
+Print Assumptions one_meta_aliases.
+
+Theorem ver_max_spec : ver_max_spec_stmt.
+Proof. exact IndexMetaSpec.ver_max_spec. Qed.
+Print Assumptions ver_max_spec.
